@@ -549,10 +549,16 @@ func c19Build(k int, al alloc) *c19In {
 	// long SPARSE bitmaps for the functions that scan a range (NextOne, PrevOne, ToArray, Slice): 18..1030
 	// words, all zero except one island near the start and one three words before the end, so a scan crosses
 	// long runs of empty words and the range ends in empty words (a sentinel planted there would be a store)
-	for _, l := range []int{18, 24, 40, 70, 130, 1030} {
+	for _, l := range []int{18, 24, 40, 70, 130, 1030, 25, 32} {
 		sp := make([]uint64, l)
 		sp[(k+l)%2] = 1<<63 | uint64(k+1)
 		sp[l-3] = 0x8000000000000001
+		if l == 25 || l == 32 {
+			// two words that cancel when ADDED (1<<63 twice) three words apart, twice: whatever 64-byte line
+			// the data starts in, one pair shares a line in one of the allocations (heap, arena, guard page)
+			sp[l-3] = 0
+			sp[5], sp[8], sp[14], sp[17] = 1<<63, 1<<63, 1<<63, 1<<63
+		}
 		in.Sparse = append(in.Sparse, al.u64s(sp))
 		var pre, sel []int32
 		cnt := int32(0)
@@ -836,6 +842,14 @@ func c19Alphabet() []c19Call {
 			a, b := in.SB.CountPrefixes(int32(k%2), e, ms[k])
 			return pr(a, b)
 		}, true},
+		{"sigbits.CountPrefixes/shared-object/single-key-and-empty-ranges", func(in *c19In) int { return 2 * len(in.Keys) }, func(in *c19In, k int) interface{} {
+			// ranges of ONE key (and of none) in between the others: whatever such a call returns, it is a query
+			// on the shared object - the wide ranges queried before and after it must not notice
+			s := int32(k / 2)
+			a, b := in.SB.CountPrefixes(s, s+int32(k%2), 4)
+			c, d := in.SB.CountPrefixes(0, int32(len(in.Keys)), 6)
+			return pr(a, b, c, d)
+		}, false},
 		{"sigbits.ShardByPrefix", func(in *c19In) int { return len(in.Keys) + 1 }, func(in *c19In, k int) interface{} {
 			a, b := sigbits.ShardByPrefix(in.Keys, int32(k+1))
 			return pr(a, b)
